@@ -25,6 +25,17 @@
 #include <typeinfo>
 #include <vector>
 
+// Verification hook: a scheduling point for the cooperative scheduler of the
+// verification harness. Compiled out unless PISTACHE_VERIF is defined.
+#ifndef PISTACHE_VERIF_POINT
+#ifdef PISTACHE_VERIF
+extern "C" void pistache_verif_point(int kind, const void* addr);
+#define PISTACHE_VERIF_POINT(kind, addr) pistache_verif_point((kind), (addr))
+#else
+#define PISTACHE_VERIF_POINT(kind, addr) ((void)0)
+#endif
+#endif
+
 namespace Pistache::Async
 {
 
@@ -246,6 +257,7 @@ namespace Pistache::Async
                     throw BadType(id);
                 }
 
+                PISTACHE_VERIF_POINT(25, this);
                 void* mem = memory();
 
                 if (allocated)
@@ -349,9 +361,11 @@ namespace Pistache::Async
                 catch (const InternalRethrow& e)
                 {
                     chain_->exc   = e.exc;
+                    PISTACHE_VERIF_POINT(22, chain_.get());
                     chain_->state = State::Rejected;
                     for (const auto& req : chain_->requests)
                     {
+                        PISTACHE_VERIF_POINT(24, req.get());
                         req->reject(chain_);
                     }
                 }
@@ -435,6 +449,7 @@ namespace Pistache::Async
                     reject_(core->exc);
                     for (const auto& req : this->chain_->requests)
                     {
+                        PISTACHE_VERIF_POINT(24, req.get());
                         req->reject(this->chain_);
                     }
                 }
@@ -446,6 +461,7 @@ namespace Pistache::Async
                     this->chain_->template construct<CleanRet>(std::forward<Ret>(ret));
                     for (const auto& req : this->chain_->requests)
                     {
+                        PISTACHE_VERIF_POINT(24, req.get());
                         req->resolve(this->chain_);
                     }
                 }
@@ -480,6 +496,7 @@ namespace Pistache::Async
                     reject_(core->exc);
                     for (const auto& req : this->chain_->requests)
                     {
+                        PISTACHE_VERIF_POINT(24, req.get());
                         req->reject(this->chain_);
                     }
                 }
@@ -491,6 +508,7 @@ namespace Pistache::Async
                     this->chain_->template construct<CleanRet>(std::forward<Ret>(ret));
                     for (const auto& req : this->chain_->requests)
                     {
+                        PISTACHE_VERIF_POINT(24, req.get());
                         req->resolve(this->chain_);
                     }
                 }
@@ -596,6 +614,7 @@ namespace Pistache::Async
                     reject_(core->exc);
                     for (const auto& req : core->requests)
                     {
+                        PISTACHE_VERIF_POINT(24, req.get());
                         req->reject(core);
                     }
                 }
@@ -612,6 +631,7 @@ namespace Pistache::Async
                         chainCore->construct<PromiseType>(val);
                         for (const auto& req : chainCore->requests)
                         {
+                            PISTACHE_VERIF_POINT(24, req.get());
                             req->resolve(chainCore);
                         }
                     }
@@ -635,10 +655,12 @@ namespace Pistache::Async
                         if (auto core = weakPtr.lock())
                         {
                             core->exc   = std::move(exc);
+                            PISTACHE_VERIF_POINT(22, core.get());
                             core->state = State::Rejected;
 
                             for (const auto& req : core->requests)
                             {
+                                PISTACHE_VERIF_POINT(24, req.get());
                                 req->reject(core);
                             }
                         }
@@ -676,6 +698,7 @@ namespace Pistache::Async
                     reject_(core->exc);
                     for (const auto& req : core->requests)
                     {
+                        PISTACHE_VERIF_POINT(24, req.get());
                         req->reject(core);
                     }
                 }
@@ -692,6 +715,7 @@ namespace Pistache::Async
                         chainCore->construct<PromiseType>(val);
                         for (const auto& req : chainCore->requests)
                         {
+                            PISTACHE_VERIF_POINT(24, req.get());
                             req->resolve(chainCore);
                         }
                     }
@@ -709,10 +733,12 @@ namespace Pistache::Async
                     void operator()()
                     {
                         auto core   = this->chain_;
+                        PISTACHE_VERIF_POINT(22, core.get());
                         core->state = State::Fulfilled;
 
                         for (const auto& req : chainCore->requests)
                         {
+                            PISTACHE_VERIF_POINT(24, req.get());
                             req->resolve(chainCore);
                         }
                     }
@@ -734,10 +760,12 @@ namespace Pistache::Async
                     promise.then(std::move(chainer), [=](std::exception_ptr exc) {
                         auto core   = this->chain_;
                         core->exc   = std::move(exc);
+                        PISTACHE_VERIF_POINT(22, core.get());
                         core->state = State::Rejected;
 
                         for (const auto& req : core->requests)
                         {
+                            PISTACHE_VERIF_POINT(24, req.get());
                             req->reject(core);
                         }
                     });
@@ -837,6 +865,7 @@ namespace Pistache::Async
 
             typedef typename std::remove_reference<Arg>::type Type;
 
+            PISTACHE_VERIF_POINT(21, core_.get());
             if (core_->state != State::Pending)
                 throw Error("Attempt to resolve a fulfilled promise");
 
@@ -849,11 +878,13 @@ namespace Pistache::Async
                 throw Error("Attempt to resolve a void promise with arguments");
             }
 
+            PISTACHE_VERIF_POINT(20, &core_->mtx);
             std::unique_lock<std::mutex> guard(core_->mtx);
             core_->construct<Type>(std::forward<Arg>(arg));
 
             for (const auto& req : core_->requests)
             {
+                PISTACHE_VERIF_POINT(24, req.get());
                 req->resolve(core_);
             }
 
@@ -865,16 +896,20 @@ namespace Pistache::Async
             if (!core_)
                 return false;
 
+            PISTACHE_VERIF_POINT(21, core_.get());
             if (core_->state != State::Pending)
                 throw Error("Attempt to resolve a fulfilled promise");
 
             if (!core_->isVoid())
                 throw Error("Attempt ro resolve a non-void promise with no argument");
 
+            PISTACHE_VERIF_POINT(20, &core_->mtx);
             std::unique_lock<std::mutex> guard(core_->mtx);
+            PISTACHE_VERIF_POINT(22, core_.get());
             core_->state = State::Fulfilled;
             for (const auto& req : core_->requests)
             {
+                PISTACHE_VERIF_POINT(24, req.get());
                 req->resolve(core_);
             }
 
@@ -908,14 +943,18 @@ namespace Pistache::Async
             if (!core_)
                 return false;
 
+            PISTACHE_VERIF_POINT(21, core_.get());
             if (core_->state != State::Pending)
                 throw Error("Attempt to reject a fulfilled promise");
 
+            PISTACHE_VERIF_POINT(20, &core_->mtx);
             std::unique_lock<std::mutex> guard(core_->mtx);
             core_->exc   = toExceptionPtr(std::move(exc));
+            PISTACHE_VERIF_POINT(22, core_.get());
             core_->state = State::Rejected;
             for (const auto& req : core_->requests)
             {
+                PISTACHE_VERIF_POINT(24, req.get());
                 req->reject(core_);
             }
 
@@ -1097,6 +1136,7 @@ namespace Pistache::Async
                           "Resolving a non-void promise requires parameters");
 
             auto core   = std::make_shared<Core>();
+            PISTACHE_VERIF_POINT(22, core.get());
             core->state = State::Fulfilled;
             return Promise<T>(std::move(core));
         }
@@ -1106,6 +1146,7 @@ namespace Pistache::Async
         {
             auto core   = std::make_shared<Core>();
             core->exc   = std::make_exception_ptr(exc);
+            PISTACHE_VERIF_POINT(22, core.get());
             core->state = State::Rejected;
             return Promise<T>(std::move(core));
         }
@@ -1129,7 +1170,9 @@ namespace Pistache::Async
                 Continuation;
             std::shared_ptr<Private::Request> req = std::make_shared<Continuation>(promise.core_, resolveFunc, rejectFunc);
 
+            PISTACHE_VERIF_POINT(20, &core_->mtx);
             std::unique_lock<std::mutex> guard(core_->mtx);
+            PISTACHE_VERIF_POINT(21, core_.get());
             if (isFulfilled())
             {
                 req->resolve(core_);
@@ -1139,6 +1182,7 @@ namespace Pistache::Async
                 req->reject(core_);
             }
 
+            PISTACHE_VERIF_POINT(23, core_.get());
             core_->requests.push_back(req);
 
             return promise;
